@@ -57,6 +57,8 @@ def classify(f):
         reasons.append("step_unbounded")
     if not ev["fedvalok"]:
         reasons.append("wrong_statistic_value")
+    if not ev.get("accok", True):
+        reasons.append("acceptance_statistic_is_not_the_documented_function_of_the_energy_errors")
     if not ev.get("daok", True):
         reasons.append("step_is_not_the_documented_update_of_the_statistics")
     if not ev.get("mmok", True):
